@@ -87,3 +87,7 @@ pub open spec fn pkt_wf(p: DNSPkt) -> bool {
     &&& domain_wf(p.question.qdomain)
     &&& rrs_wf(p.answer@) && rrs_wf(p.nameserver@) && rrs_wf(p.additional@)
 }
+// section sizes fit the 16-bit header counts (one slot is kept for the OPT record the encoder appends)
+pub open spec fn sections_fit(p: DNSPkt) -> bool { p.answer@.len() <= 65535 && p.nameserver@.len() <= 65535 && p.additional@.len() < 65535 }
+// a message the encoder accepts: what the decoder produces from any message of at most 65536 octets (unit dnsparse)
+pub open spec fn reply_wf(p: DNSPkt) -> bool { pkt_wf(p) && sections_fit(p) }
